@@ -100,6 +100,37 @@ package module
 //@     invariant forall i :: 0 <= i && i < pos(iterator) ==> dom(map_, akey(s[i])) && (lastkey(s, i, pos(iterator)) ==> get(map_, akey(s[i])) == aval(s[i]))
 //@     decreases len(s) - pos(iterator)
 
+// Catalog[K, V]: no data argument, a Go map, or CDCN source (at most one argument). From source: the keys are those of the
+// parsed associations, a repeated key keeps its last value, and without repeated keys the order is the source order
+// (what the class constructor MakeFromSequence gives).
+//@ func Catalog
+//@   props C20
+//@   nilok
+//@   uses kmem_snoc, kmem_take_none, kmem_take_all, kmem_take_elem
+//@   requires len(arguments) <= 1
+//@   requires len(arguments) == 1 ==> typeis(arguments[0], mapof2(K, V)) || typeis(arguments[0], "string")
+//@   let s := view(parsedval(unboxStr(arguments[0])))
+//@   assumes len(arguments) == 1 && typeis(arguments[0], "string") ==> nonnil(s) && allallocated(s)
+//@   ensures[C20] result != nil && fresh(result) && wellkeyed(view(result))
+//@   ensures[C20] len(arguments) == 0 ==> view(result) == empty()
+//@   ensures[C20] len(arguments) == 1 && typeis(arguments[0], mapof2(K, V)) && card(arguments[0]) > 0 ==> (forall k U :: kmem(view(result), k) <==> dom(arguments[0], k)) && (forall k U :: dom(arguments[0], k) ==> valof(view(result), k) == get(arguments[0], k))
+//@   ensures[C20] len(arguments) == 1 && typeis(arguments[0], "string") && len(unboxStr(arguments[0])) > 0 ==> (forall k U :: kmem(view(result), k) <==> kmem(s, k))
+//@   ensures[C20] len(arguments) == 1 && typeis(arguments[0], "string") && len(unboxStr(arguments[0])) > 0 ==> (forall i :: 0 <= i && i < len(s) && lastkey(s, i, len(s)) ==> valof(view(result), akey(s[i])) == aval(s[i]))
+//@   ensures[C20] len(arguments) == 1 && typeis(arguments[0], "string") && len(unboxStr(arguments[0])) > 0 && ukeys(s) ==> len(view(result)) == len(s) && (forall i :: 0 <= i && i < len(s) ==> akey(view(result)[i]) == akey(s[i]))
+//@   loop 1:
+//@     invariant -1 <= rangeindex && rangeindex <= 0 && rangeindex < len(arguments) && notation != nil && sequence == nil && len(associations) == 0
+//@     invariant rangeindex == -1 ==> mappings == nil && source == ""
+//@     invariant rangeindex == 0 && typeis(arguments[0], mapof2(K, V)) ==> mappings == arguments[0] && source == ""
+//@     invariant rangeindex == 0 && typeis(arguments[0], "string") ==> source == unboxStr(arguments[0]) && mappings == nil
+//@     decreases 1 - rangeindex
+//@   loop 2:
+//@     invariant catalog != nil && fresh(catalog) && snap(iterator) == s && source == unboxStr(arguments[0]) && 0 <= pos(iterator) && pos(iterator) <= len(s)
+//@     invariant wellkeyed(view(catalog)) && allfresh(view(catalog)) && unchanged(aval) && unchanged(view)
+//@     invariant forall k U :: kmem(view(catalog), k) <==> kmem(s[0:pos(iterator)], k)
+//@     invariant forall i :: 0 <= i && i < pos(iterator) && lastkey(s, i, pos(iterator)) ==> valof(view(catalog), akey(s[i])) == aval(s[i])
+//@     invariant ukeys(s) ==> len(view(catalog)) == pos(iterator) && (forall i :: 0 <= i && i < pos(iterator) ==> akey(view(catalog)[i]) == akey(s[i]))
+//@     decreases len(s) - pos(iterator)
+
 // Stack[V]: no data argument, a capacity, a Go array, or CDCN source (one data argument)
 //@ func Stack
 //@   props C20
